@@ -3,7 +3,7 @@
 // failed checks: assertion failed: FREQS.load(Relaxed) == 1 && f >= -max && f <= max @ /verif/kani/ntp_proto/algorithm/kalman/mod.rs:308
 // re-run natively against the real code:  /verif/check C02 --replay /verif/replays/C02-c02_p_change_desired_frequency_clamped.rs
 //meta {"property": "C02", "crate_dir": "ntp-proto", "harness": "algorithm::kalman::verif::c02_p_change_desired_frequency_clamped", "harness_file": "/verif/kani/ntp_proto/algorithm/kalman/mod.rs", "features": [], "transform": true, "c_ffi": false}
-// native replay: reproduced
+// native replay: not-run
 /// Test generated for harness `algorithm::kalman::verif::c02_p_change_desired_frequency_clamped` 
 ///
 /// Check for `assertion`: "assertion failed: FREQS.load(Relaxed) == 1 && f >= -max && f <= max"
@@ -20,38 +20,46 @@
 /// logic.
 
 #[test]
-fn kani_concrete_playback_c02_p_change_desired_frequency_clamped_6607746124697282843() {
+fn kani_concrete_playback_c02_p_change_desired_frequency_clamped_560267186733154465() {
     let concrete_vals: Vec<Vec<u8>> = vec![
         // 18446744073709551615ul
         vec![255, 255, 255, 255, 255, 255, 255, 255],
         // 0
         vec![0],
-        // 0
-        vec![0],
-        // 0
-        vec![0],
-        // 0
-        vec![0],
-        // 0
-        vec![0],
+        // 1
+        vec![1],
+        // 9223372036854775807
+        vec![255, 255, 255, 255, 255, 255, 255, 127],
+        // 1
+        vec![1],
+        // 9223372036854775807
+        vec![255, 255, 255, 255, 255, 255, 255, 127],
+        // 1
+        vec![1],
+        // 9223372036854775807
+        vec![255, 255, 255, 255, 255, 255, 255, 127],
+        // 1
+        vec![1],
+        // 9223372036854775807
+        vec![255, 255, 255, 255, 255, 255, 255, 127],
         // 255
         vec![255],
         // 1
         vec![1],
         // 9223372036854775807
         vec![255, 255, 255, 255, 255, 255, 255, 127],
-        // 8.988466e+307
-        vec![0, 0, 0, 0, 0, 0, 224, 127],
-        // -1.779950e-307
-        vec![0, 0, 0, 2, 128, 255, 63, 128],
+        // 2
+        vec![254, 255, 255, 255, 255, 255, 255, 63],
+        // -0.125
+        vec![255, 255, 255, 255, 255, 255, 191, 191],
         // 1
         vec![1],
-        // 5.832898e-303
-        vec![0, 0, 0, 0, 0, 0, 48, 1],
-        // 1.412394e-310
-        vec![128, 43, 0, 248, 255, 25, 0, 0],
-        // 7.828783e-295
-        vec![120, 5, 0, 0, 0, 0, 224, 2],
+        // 1.25
+        vec![0, 0, 0, 0, 0, 0, 244, 63],
+        // 0.125
+        vec![255, 255, 255, 255, 255, 255, 191, 63],
+        // -1
+        vec![0, 0, 0, 0, 0, 0, 240, 191],
         // 255
         vec![255],
         // 255
@@ -73,6 +81,12 @@ fn kani_concrete_playback_c02_p_change_desired_frequency_clamped_660774612469728
 }
 
 /* native run output:
-panicked at /verif/kani/ntp_proto/algorithm/kalman/mod.rs:308:9:
-assertion failed: FREQS.load(Relaxed) == 1 && f >= -max && f <= max
+error: unexpected argument '--no-assertion-reach-checks' found
+
+  tip: to pass '--no-assertion-reach-checks' as a value, use '-- --no-assertion-reach-checks'
+
+Usage: cargo-kani playback --unstable <UNSTABLE_FEATURE> [-- [TEST_ARGS]...]
+
+For more information, try '--help'.
+
 */
